@@ -5,6 +5,7 @@ S=/verif/seeded/$id
 mkdir -p $S
 cp $out/patch.diff $S/patch.diff
 for f in $out/demo.* $out/run_demo.sh; do [ -f $f ] && cp $f $S/; done
+[ -d $out/fake ] && cp -r $out/fake $S/
 [ -f $out/meta.json ] && cp $out/meta.json $S/agent-meta.json
 clean=/var/tmp/bt-seed-$id-clean; mut=/var/tmp/bt-seed-$id-mut
 rm -rf $clean $mut; mkdir -p $clean $mut
